@@ -261,14 +261,13 @@ fn run_check(id: &str, tier: Tier) -> i32 {
         }
         "C13" => {
             let mut r = Report::new("C13", tier, "model_checking");
-            // the two explorations are independent (8 session threads each): run them side by side
+            // the three parts are independent: run them side by side
             let (a, b, c) = std::thread::scope(|sc| {
-                let h = sc.spawn(|| {
-                    let b = c12::part_c13_overlap(tier);
-                    (b, c12::part_c13_data(tier))
-                });
+                let h = sc.spawn(|| c12::part_c13_overlap(tier));
+                let h2 = sc.spawn(|| c12::part_c13_data(tier));
                 let a = c12::part_c13(tier);
-                let (b, c) = h.join().expect("overlap / data parts");
+                let b = h.join().expect("overlap part");
+                let c = h2.join().expect("data part");
                 (a, b, c)
             });
             r.parts.push(a);
